@@ -37,6 +37,8 @@ def bounds(tier):
             "long": f"values 1..5 (B=6) and {{1,2,3,4,5,7}} (B=10), {7 if q else 8}..{10 if q else 12} items",
             "planted": f"B=12, letters {PLANT[1]}, patterns <= {PLANT[2]} parts, m=2..{8 if q else 12}",
             "planted-big": "B=12, 13, 9 (letters 1..7 / 1..5) and B=101, 99 (letters 1, 2 and the integers next to B/6, B/3, B/2, 2B/3); every unordered pair of patterns (<=4 parts) with multiplicities " + ("(64,0),(40,24),(100,20)" if q else "(64,0),(40,24),(100,20),(20,100),(150,150)") + ": OPT = 64..300 bins, up to ~1200 items",
+            "big": "B in {1e6, 2**32, 2**32+2, 3*2**31, 1e10} with letters 1, 2, the integers next to B/3 and B/2, B, B+1; 1..5(6) items; exhaustive OPT",
+            "fractional": "B=7.5 (items 1..10), B=10.5 (items 1..12), 1..5(6) items; exhaustive OPT",
             "published": "decreasing/two-thirds family k=1..4 (B=1000), the two three-quarters examples"}
 
 
@@ -69,6 +71,13 @@ def tasks(tier):
             ts.append(("planted-big", ch, None))
     for ch in spaces.chunked(scopes.count_sweep_cover(tier), 30):
         ts.append(("count-sweep", ch, None))
+    # near-miss sums at large magnitudes (B-1 is reachable as a sum: a tolerance or a narrower number type over-reports)
+    for Bc in scopes.BIG_BINSIZES:
+        for ch in scopes.chunk_multisets(scopes.threshold_letters(Bc), 1, 5 if q else 6, 300):
+            ts.append(("big", [(ms, Bc, None) for ms in ch], None))
+    for Bf, top in ((7.5, 10), (10.5, 12)):
+        for ch in scopes.chunk_multisets(range(1, top + 1), 1, 5 if q else 6, 300):
+            ts.append(("fractional", [(ms, Bf, None) for ms in ch], None))
     ts.append(("published", published(), None))
     return ts
 
